@@ -333,7 +333,7 @@ class Gen:
         if dtype is not None and g.random() < 0.12:  # an operand of another precision / field: the product promotes
             dtype = {"f4": "f8", "f8": g.choice(["c16", "f4"]), "c16": "f8", "c8": "c16"}.get(dtype, dtype)
         shape = [n] if k is None else [n, k]
-        layout = g.choice(["c", "c", "c", "f", "strided"])
+        layout = g.choice(["c", "c", "c", "c", "c", "f", "f", "strided", "strided", "neg", "ro", "bcast"])
         return arr(shape, dtype or self.cfg["dtype"], self.seed() % 50, layout=layout,
                    **({"kind": kind} if kind else {}))
 
@@ -1302,6 +1302,14 @@ def matrix_programs_c18():
                                   call("matvec", A=S(slot), x=arr([cols, rows], dt, 71)),
                                   call("rmatvec", A=S(slot), x=arr([cols, rows], dt, 72)),
                                   call("matvec", A=S(slot), x=arr([cols, rows], dt, 71))]),
+             # operands that are views with negative / zero strides or read-only (cola must neither write to them nor choke)
+             ("products_odd_layouts", [call("matvec", A=S(slot), x=arr([cols], dt, 73, layout="neg")),
+                                       call("matvec", A=S(slot), x=arr([cols, 2], dt, 74, layout="neg")),
+                                       call("rmatvec", A=S(slot), x=arr([2, rows], dt, 75, layout="neg")),
+                                       call("matvec", A=S(slot), x=arr([cols, 3], dt, 76, layout="bcast")),
+                                       call("rmatvec", A=S(slot), x=arr([3, rows], dt, 77, layout="bcast")),
+                                       call("matvec", A=S(slot), x=arr([cols, 2], dt, 78, layout="ro")),
+                                       call("rmatvec", A=S(slot), x=arr([rows], dt, 79, layout="ro"))]),
              ("mv_promote", [call("matvec", A=S(slot), x=arr([cols, 2], up, 65)), call("matvec", A=S(slot), x=x),
                              call("rmatvec", A=S(slot), x=arr([rows], up, 66)),
                              mk("m_ann", {"k": "ann", "name": "Stiefel", "of": R}), call("matvec", A=S("m_ann"), x=arr([cols], up, 67))]),
